@@ -688,6 +688,53 @@ fn probe_arch(arch: &str, bytes: &[u8], pc: i64) -> (char, Option<String>) {
     }
 }
 
+/// The model's assumption "a fresh reader on `bytes[p..]` decodes what a reader that has advanced to `p` decodes",
+/// checked along the path the decode loop takes: one advancing reader from offset 0 (re-created after an
+/// undecodable instruction, as in mod.rs:415-418) must meet the position-indexed oracle at every step.
+fn advancing_agrees<'a, A: Arch>(decoder: &A::Decoder, bytes: &'a [u8], oracle: &[u8], adjust: usize) -> bool
+where
+    u64: From<A::Address>,
+    U8Reader<'a>: Reader<A::Address, A::Word>,
+{
+    let mut p = 0usize;
+    let mut reader = U8Reader::new(bytes);
+    loop {
+        let Some(&want) = oracle.get(p) else { return true };
+        let before = u64::from(<U8Reader<'a> as Reader<A::Address, A::Word>>::total_offset(&mut reader));
+        match decoder.decode(&mut reader) {
+            Ok(_) => {
+                let len = u64::from(<U8Reader<'a> as Reader<A::Address, A::Word>>::total_offset(&mut reader)) - before;
+                if std::char::from_digit(len as u32, 16).map(|c| c as u8) != Some(want) {
+                    return false;
+                }
+                p += len as usize;
+            }
+            Err(e) => {
+                if e.data_exhausted() {
+                    return want == b'x';
+                }
+                if want != b'i' {
+                    return false;
+                }
+                p += adjust;
+                let Some(rest) = bytes.get(p..) else { return true };
+                reader = U8Reader::new(rest);
+            }
+        }
+    }
+}
+
+fn advancing_agrees_arch(arch: &str, bytes: &[u8], oracle: &str) -> bool {
+    let o = oracle.as_bytes();
+    match arch {
+        "x86" => advancing_agrees::<yaxpeax_x86::protected_mode::Arch>(&yaxpeax_x86::protected_mode::InstDecoder::default(), bytes, o, 1),
+        "x86_64" => advancing_agrees::<yaxpeax_x86::amd64::Arch>(&yaxpeax_x86::amd64::InstDecoder::default(), bytes, o, 1),
+        "arm64" => advancing_agrees::<yaxpeax_arm::armv8::a64::ARMv8>(&yaxpeax_arm::armv8::a64::InstDecoder::default(), bytes, o, 4),
+        "arm" => advancing_agrees::<yaxpeax_arm::armv7::ARMv7>(&yaxpeax_arm::armv7::InstDecoder::default_thumb(), bytes, o, 2),
+        _ => true,
+    }
+}
+
 fn fnv32(s: &str) -> u32 {
     let mut h: u32 = 0x811c9dc5;
     for b in s.bytes() {
@@ -717,6 +764,9 @@ fn tables(arch: Option<&str>, slice: &[u8], rel: u32) -> (String, String) {
             Some(t) => fingerprint(arch, &t, false),
             None => "-".to_string(),
         });
+    }
+    if !advancing_agrees_arch(arch, slice, &oracle) {
+        oracle.push('?'); // rejected by the model driver and the judge as `bad-op`
     }
     (oracle, refs.join(" "))
 }
